@@ -101,6 +101,49 @@ def compare_cases(ctx, out):
             out.disagreements.append({"op": "body.compare", "input": r, "model": m, "impl": i})
 
 
+def overlaps_cases(ctx, out):
+    """`LocatableOverlapIterator.__overlaps` / `__overlaps_with_barcode` on key objects: interpreted translated body vs
+    the real class methods on real `_BarcodesAndCoordinateKey` objects (built without a record: Locatable.__init__ plus
+    the two barcode attributes)."""
+    from maflib.locatable import Locatable
+    from maflib.overlap_iter import LocatableOverlapIterator as LOI
+    from maflib.sort_order import _BarcodesAndCoordinateKey
+    rng = ctx.rng("bodies-overlaps")
+
+    def real(k):
+        o = _BarcodesAndCoordinateKey.__new__(_BarcodesAndCoordinateKey)
+        Locatable.__init__(o, k["chr"], k["start"], k["end"])
+        o.tumor_barcode, o.normal_barcode = k["tumor"], k["normal"]
+        return o
+    chrs = [None, 0, 1, 2, 10, "1", "2", "X", "chr1"]
+    pos = [1, 2, 3, 5, 8, 2 ** 63]
+    bars = [None, "T1", "T2", ""]
+    reqs, want = [], []
+    for _ in range(ctx.scale(400, 4000)):
+        a = {"chr": rng.choice(chrs), "start": rng.choice(pos), "tumor": rng.choice(bars), "normal": rng.choice(bars)}
+        a["end"] = a["start"] + rng.choice([0, 1, 3, 7])
+        b = dict(a) if rng.random() < 0.5 else {"chr": rng.choice(chrs), "start": rng.choice(pos), "tumor": rng.choice(bars), "normal": rng.choice(bars)}
+        b["start"] = rng.choice(pos) if rng.random() < 0.7 else a["start"]
+        b["end"] = b["start"] + rng.choice([0, 1, 3])
+        if rng.random() < 0.05:
+            (a if rng.random() < 0.5 else b)[rng.choice(["start", "end"])] = None       # a missing position: `<=` on None is Python's TypeError
+        bar = rng.random() < 0.5
+        reqs.append({"op": "body.overlaps", "a": a, "b": b, "barcodes": bar})
+        try:
+            f = getattr(LOI, "_LocatableOverlapIterator__overlaps_with_barcode" if bar else "_LocatableOverlapIterator__overlaps")
+            want.append({"value": enc_val(f(real(a), real(b)))})
+        except Exception as e:  # noqa
+            want.append({"exc": exc_name(e)})
+    got = ctx.driver.run(reqs)
+    for r, m, i in zip(reqs, got, want):
+        out.evaluations += 1
+        out.distribution["body.overlaps (interpreted translated body vs implementation)"] += 1
+        if has_unmodelled(m):
+            out.unmodelled += 1
+        elif m != i:
+            out.disagreements.append({"op": "body.overlaps", "input": r, "model": m, "impl": i})
+
+
 def translation_report(ctx, out):
     """What the body translator covered on this tree (evidence only)."""
     try:
